@@ -47,9 +47,10 @@ func (self *BinaryConv) doNative(ctx context.Context, src []byte, desc *thrift.T
 	}()
 
 	// NOTICE: the native number scanner looks at the byte behind a leading '0' without a bound check,
-	// so an input that ends there needs one more byte in its buffer
-	if n := len(src); n > 0 && src[n-1] == '0' {
-		src = append(make([]byte, 0, n+1), src...)
+	// so an input that ends there needs one more byte in its buffer.
+	// The literal scanner loads 4 bytes at once and miscalculates the bound for inputs shorter than that
+	if n := len(src); n < 4 || src[n-1] == '0' {
+		src = append(make([]byte, 0, n+4), src...)
 	}
 	jp := rt.Mem2Str(src)
 	fsm.Init(0, unsafe.Pointer(desc))
